@@ -420,7 +420,9 @@ def shards(tier, seed):
     out = [('T', s) for s in t]
     out += [('U', name) for name, _f in scen.priors()]
     out += [('G', ti) for ti in range(len(c09.TAGS_A))]
-    out += [('O', name) for name, _t in odd_corners()]
+    # 'manifest_cycle' (Manifest -> d/Manifest -> ../Manifest) makes gemato load ever longer spellings of the same
+    # two files until the kernel answers ENAMETOOLONG (~1.5 s per command): thorough tier only
+    out += [('O', name) for name, _t in odd_corners() if tier == 'thorough' or name != 'manifest_cycle']
     out += [('K', tag) for tag in K_TAGS]
     return out
 
